@@ -59,7 +59,7 @@ FirstMsg(msgs) == LET bad == {i \in DOMAIN msgs : msgs[i] # ""} IN
                   IF bad = {} THEN "" ELSE msgs[CHOOSE i \in bad : \A k \in bad : i <= k]
 
 (* counters of the VXINFO line *)
-Zero == [col_in |-> 0, col_out |-> 0, col_cells_rebuilt |-> 0, cells_q |-> 0, labelings |-> 0, acc |-> 0, rej |-> 0, props_sized |-> 0]
+Zero == [col_in |-> 0, col_out |-> 0, col_cells_rebuilt |-> 0, cells_q |-> 0, labelings |-> 0, acc |-> 0, rej |-> 0, props_sized |-> 0, splits |-> 0]
 Nothing == [msg |-> "", drift |-> 0, d |-> Zero]
 AddInfo(a, b) == [k \in DOMAIN a |-> a[k] + (IF k \in DOMAIN b THEN b[k] ELSE 0)]
 
@@ -185,21 +185,25 @@ C03Line(ln, pp, qp) ==
       okc  == {i \in DOMAIN cands : CollapseRel(pre, c.a, post, ln.ret, cands[i])}
       isSplit == mod /\ c.op \in {"split_edge", "split_face"}
       sameV == post.nv = pre.nv /\ post.vdel = pre.vdel
+      splitS == IF ~isSplit THEN {} ELSE IF c.op = "split_edge" THEN EdgeVertSet(pre, Full(c.a)) ELSE FaceVertSet(pre, c.a)
+      inS  == isSplit /\ sameV /\ WellFormed(pre)
+              /\ (IF c.op = "split_edge" THEN c.a \in LiveHE(pre) ELSE c.a \in LiveF(pre))
+              /\ SplitInContract(pre, splitS, c.b) /\ TetShape(post)
+      smsg == IF inS THEN SplitPropsFollowMsg(pre, splitS, c.b, post, pp.props, qp.props) ELSE ""
       cmsg == IF inC /\ okc # {}
               THEN CollapsePropsFollowMsg(pre, c.a, post, cands[CHOOSE i \in okc : \A k \in okc : i <= k], pp.props, qp.props)
               ELSE ""
       msg  == IF ~hasP \/ ~mod \/ ~WellFormed(post) THEN ""
               ELSE IF ~PropsAllSized(post, pp, qp) THEN "C03:PropSizes:" \o c.op
               ELSE IF cmsg # "" THEN "C03:CollapsePropsFollow:" \o cmsg
-              ELSE IF isSplit /\ sameV /\ \E i \in DOMAIN qp.props :
-                        qp.props[i].k = "V" /\ \E v \in LiveV(post) : At(qp.props[i].v, v) # At(pp.props[i].v, v)
-                   THEN "C03:SplitVertexValues"
+              ELSE IF smsg # "" THEN "C03:SplitPropsFollow:" \o smsg
               ELSE ""
   IN [msg |-> msg, drift |-> 0,
       d |-> [Zero EXCEPT !.col_in = IF inC /\ okc # {} THEN 1 ELSE 0,
                          !.col_out = IF isCol /\ ~(inC /\ okc # {}) THEN 1 ELSE 0,
                          !.col_cells_rebuilt = IF inC /\ \E x \in LiveC(pre) : From(pre, c.a) \in CellVertSet(pre, x) /\ To(pre, c.a) \notin CellVertSet(pre, x)
                                                THEN 1 ELSE 0,
+                         !.splits = IF hasP /\ inS THEN 1 ELSE 0,
                          !.props_sized = IF hasP /\ mod THEN Len(qp.props) ELSE 0]]
 
 (* =============================== C16 ==================================== *)
